@@ -820,6 +820,9 @@ fn rpc_messages(thorough: bool) -> Vec<v::Message> {
         Ipv6Addr::LOCALHOST.into(),
         Ipv6Addr::new(0x2001, 0xdb8, 0, 0, 0, 0, 0, 1).into(),
         Ipv6Addr::new(0xffff, 0xffff, 0xffff, 0xffff, 0xffff, 0xffff, 0xffff, 0xffff).into(),
+        // spellings of an IPv4 address inside IPv6: written as the 16 bytes they are
+        Ipv4Addr::new(10, 0, 0, 7).to_ipv6_mapped().into(),
+        Ipv4Addr::new(10, 0, 0, 7).to_ipv6_compatible().into(),
     ];
     for id in &ids {
         for ip in &ips {
